@@ -20,7 +20,8 @@ from vf.core import Check, CaseResult, U, PY, VERIF, REPO
 
 # 'abandon': a private FileLock object on the same path is acquired, used and then simply dropped
 # (garbage collected while held) instead of being released
-MODES = ['with', 'acq', 'nb', 'timed', 'timed0', 'ctx', 'ctxnb', 'abandon']
+MODES = ['with', 'acq', 'nb', 'timed', 'timed0', 'ctx', 'ctxnb', 'abandon', 'force', 'stale']
+WEIGHTS = [4, 4, 4, 4, 2, 3, 2, 3, 2, 3]
 
 
 def gen(rng):
@@ -31,8 +32,8 @@ def gen(rng):
     for _ in range(nthr):
         rounds = []
         for _ in range(rng.choice([1, 2, 2, 3])):
-            rounds.append({'obj': rng.randrange(nobj), 'mode': rng.choice(MODES),
-                           'dwell': rng.choice([0, 0, 0.03, 0.06, 0.2]),
+            rounds.append({'obj': rng.randrange(nobj), 'mode': rng.choices(MODES, WEIGHTS)[0],
+                           'dwell': rng.choice([0, 0, 0.03, 0.06, 0.2, 0.1, 0.5]),
                            'nest': reentrant and rng.random() < 0.4,
                            'tau': rng.choice([0.1, 0.1, 0.04, 0.3])})
         threads.append({'start': rng.choice([0, 0, 0, 0.01, 0.05]), 'rounds': rounds})
@@ -45,7 +46,7 @@ class FlockHarness:
         self.F = F
         self.path = path
 
-    def run(self, scen, strategy, probes=False):
+    def run(self, scen, strategy, probes=False, delays=None):
         F = self.F
         path = self.path
 
@@ -86,9 +87,38 @@ class FlockHarness:
                         o = objs[rd['obj']]
                         mode = rd['mode']
                         emit('try', name, rd['obj'], mode)
+                        if mode == 'stale':
+                            # a private object whose quick attempt fails under contention lives on for a while and
+                            # is dropped later, perhaps while somebody else holds the lock
+                            tmp = F.FileLock(path, reentrant=scen['reentrant'])
+                            emit('t_call', name, 'nb', 0)
+                            got = tmp.acquire(blocking=False) if rd['nest'] or not scen['reentrant'] else tmp.acquire(timeout=0)
+                            emit('t_ret', name, got)
+                            if got is True:
+                                section(name, tmp, dict(rd, nest=False))
+                                tmp.release()
+                            else:
+                                emit('refused', name, rd['obj'], mode, got)
+                                s.sleep(rd['tau'])
+                            s.yield_point('drop')
+                            del tmp
+                            emit('dropped', name, got)
+                            continue
+                        if mode == 'force':
+                            got = o.acquire()
+                            if got is True:
+                                if rd['nest']:
+                                    emit('nested', name, o.acquire())
+                                section(name, o, dict(rd, nest=False))
+                                o.release(force=True)       # gives up every level at once
+                            else:
+                                emit('refused', name, rd['obj'], mode, got)
+                            continue
                         if mode == 'abandon':
                             tmp = F.FileLock(path, reentrant=scen['reentrant'])
+                            emit('t_call', name, 'timed', rd['tau'])
                             got = tmp.acquire(timeout=rd['tau'])
+                            emit('t_ret', name, got)
                             if got is True:
                                 section(name, tmp, dict(rd, nest=False))
                             else:
@@ -97,11 +127,14 @@ class FlockHarness:
                             del tmp                # __del__ gives the lock back
                             continue
                         if mode in ('ctx', 'ctxnb'):
+                            emit('t_call', name, 'timed' if mode == 'ctx' else 'nb', rd['tau'] if mode == 'ctx' else 0)
                             try:
                                 with (o.acquire_ctx(timeout=rd['tau']) if mode == 'ctx'
                                       else o.acquire_ctx(blocking=False)):
+                                    emit('t_ret', name, True)
                                     section(name, o, rd)
                             except TimeoutError:
+                                emit('t_ret', name, False)
                                 emit('refused', name, rd['obj'], mode)
                             continue
                         if mode == 'with':
@@ -114,11 +147,17 @@ class FlockHarness:
                         if mode == 'acq':
                             got = o.acquire()
                         elif mode == 'nb':
+                            emit('t_call', name, 'nb', 0)
                             got = o.acquire(blocking=False)
+                            emit('t_ret', name, got)
                         elif mode == 'timed':
+                            emit('t_call', name, 'timed', rd['tau'])
                             got = o.acquire(timeout=rd['tau'])
+                            emit('t_ret', name, got)
                         else:
+                            emit('t_call', name, 'timed', 0)
                             got = o.acquire(timeout=0)
+                            emit('t_ret', name, got)
                         if got is True:
                             section(name, o, rd)
                             o.release()
@@ -146,7 +185,11 @@ class FlockHarness:
                 p = s.spawn(prober, 'P')
                 s.block(lambda: p.st == simrt.DONE, None, 'main-join2')
 
-        r = simrt.execute(main, strategy, max_steps=100000, watchdog=60.0)
+        def pre(s):
+            if delays:
+                s.line_delays = [dict(d) for d in delays]
+
+        r = simrt.execute(main, strategy, max_steps=100000, watchdog=60.0, pre=pre)
         return r
 
 
@@ -276,8 +319,9 @@ class C02(Check):
         env['PYTHONPATH'] = os.pathsep.join([REPO, VERIF])
         procs = []
         for i in range(nproc):
-            cmd = [PY, '-m', 'vf.props.flock_child', lock, d, str(nthr), str(rounds),
-                   str(case['seed'] * 31 + i), str(rng.choice([0, 1, 1]))]
+            cmd = [PY, '-W', 'ignore', '-m', 'vf.props.flock_child', lock, d, str(nthr), str(rounds),
+                   str(case['seed'] * 31 + i), str(rng.choice([0, 1, 1])), '-', 'with,acq,nb,timed,ctx', '0.08',
+                   str(rng.choice([0, 0.05, 0.1]))]
             procs.append(subprocess.Popen(cmd, env=env, stdout=subprocess.PIPE, stderr=subprocess.PIPE,
                                           cwd=VERIF))
         outs = []
@@ -306,6 +350,7 @@ class C02(Check):
         st['process_entries'] += entries
         st['process_refusals'] += refused
         st['process_injected_yields'] += sum(o['yields'] for o in outs)
+        st['holder_forked_helper_inside_section'] += sum(o.get('forks', 0) for o in outs)
         overlaps = [x for o in outs for x in o['overlaps']]
         errors = [x for o in outs for x in o['errors']]
         handovers = 0
@@ -337,7 +382,8 @@ class C02(Check):
         return {'nontrivial': 2000 if q else 40000, 'handover_between_threads': 1000 if q else 20000,
                 'handover_between_objects': 500 if q else 10000,
                 'handover_between_processes': 200 if q else 4000,
-                'refused_or_timed_out': 500 if q else 10000, 'nested_reacquire': 200 if q else 4000}
+                'refused_or_timed_out': 500 if q else 10000, 'nested_reacquire': 200 if q else 4000,
+                'holder_forked_helper_inside_section': 30 if q else 400}
 
 
 def get_check(pid):
